@@ -57,6 +57,9 @@ class Recorder:
         self.fault_kind = fault_kind
         self.fired = False
         self.after_fault = []    # ops performed after the injected raise
+        self.exit_calls = 0      # calls of RTDCWriter.rectify_metadata /
+        self.exit_fault_at = None    # version_brand; fault at the n-th
+        self.fault_pos = None    # operation index at which the fault hit
 
     def inside(self, path):
         try:
@@ -69,8 +72,13 @@ class Recorder:
         if self.fault_at is not None and not self.fired \
                 and idx == self.fault_at:
             self.fired = True
+            self.fault_pos = idx
             if self.fault_kind == "kill":
                 os._exit(KILL_EXIT)
+            if self.fault_kind == "partial" and kind == "dset-write":
+                # "disk full": part of the data is written, then OSError
+                self.ops.append(("FAULT:" + kind, path, path2, detail))
+                return "partial"
             if self.fault_kind == "raise-after":
                 # the operation is performed, then reported as failed
                 self.ops.append((kind, path, path2, detail))
@@ -138,7 +146,10 @@ def _wrap(owner, attr, kind, pathfn, detailfn=None):
         post = rec.hit(kind, path, None, detail)
         rec.depth += 1
         try:
-            res = orig(*a, **kw)
+            if post == "partial":
+                res = _partial_write(orig, *a, **kw)
+            else:
+                res = orig(*a, **kw)
         finally:
             rec.depth -= 1
         if post:
@@ -147,6 +158,52 @@ def _wrap(owner, attr, kind, pathfn, detailfn=None):
     wrapper.__wrapped__ = orig
     wrapper.__name__ = getattr(orig, "__name__", attr)
     setattr(owner, attr, wrapper)
+
+
+def _partial_write(orig, self, args, val):
+    """Dataset.__setitem__ that stores only the first half of the slice
+    (what a full disk leaves behind); best effort, else nothing is written."""
+    try:
+        import numpy as np
+        first = args[0] if isinstance(args, tuple) and args else args
+        rest = args[1:] if isinstance(args, tuple) else ()
+        if isinstance(first, slice) and self.shape:
+            idx = range(*first.indices(self.shape[0]))
+            arr = np.asarray(val)
+            if idx.step == 1 and len(idx) >= 2 and arr.ndim >= 1 \
+                    and arr.shape[0] == len(idx):
+                h = len(idx) // 2
+                orig(self, (slice(idx.start, idx.start + h),) + tuple(rest),
+                     arr[:h])
+    except Exception:
+        pass
+    return None
+
+
+def _install_writer_exit():
+    """RTDCWriter.__exit__ calls rectify_metadata and version_brand before
+    closing: let the n-th such call raise (an exception out of __exit__)."""
+    try:
+        from dclab.rtdc_dataset.writer import RTDCWriter
+    except Exception:
+        return
+    for attr in ("rectify_metadata", "version_brand"):
+        orig = getattr(RTDCWriter, attr)
+
+        def wrapper(self, *a, __orig=orig, __attr=attr, **kw):
+            rec = _REC
+            if rec is not None:
+                n = rec.exit_calls
+                rec.exit_calls += 1
+                if rec.exit_fault_at is not None and not rec.fired \
+                        and n == rec.exit_fault_at:
+                    rec.fired = True
+                    rec.fault_pos = len(rec.ops)
+                    raise InjectedFault(errno.EIO, "injected I/O error in "
+                                        "RTDCWriter.%s (call %d)" % (__attr, n))
+            return __orig(self, *a, **kw)
+        wrapper.__wrapped__ = orig
+        setattr(RTDCWriter, attr, wrapper)
 
 
 def install():
@@ -321,6 +378,7 @@ def install():
         wrapper.__wrapped__ = orig
         setattr(os, name, wrapper)
 
+    _install_writer_exit()
     os_two("rename")
     os_two("replace")
     os_one("unlink")
